@@ -332,7 +332,9 @@ class C18(Prop):
         'chain_magic_length', 'payload_eq_spec', 'frame_eq_spec', 'payload_roundtrip', 'parse_frame',
         'reframe_identical', 'parse_reframe', 'fromBytes_frame', 'parse_stream', 'parse_stream_append', 'bad_magic_rejected',
         'bad_checksum_rejected', 'corrupted_payload_rejected', 'accepted_frame_valid', 'truncated_frame_trunc',
-        'length_guard', 'position_le_frame_end')]
+        'length_guard', 'position_le_frame_end', 'checksum_len', 'command_eq_spec', 'version_lt_70001_payload',
+        'version_lt_209_unserialisable', 'parse_stream_trace', 'parseAll_eq_trace', 'rejected_before_dispatch',
+        'returned_was_accepted')]
     anchors = ([('bitcoin/messages.py', 'MsgSerializable.to_bytes'),
                 ('bitcoin/messages.py', 'MsgSerializable.stream_deserialize'),
                 ('bitcoin/messages.py', 'MsgSerializable.from_bytes')] +
